@@ -404,6 +404,9 @@ func lexSpaces(c *explore.Ctx, conformance, positions bool, delta int) {
 	comment := []string{"a", " ", "\t", "\n", "\r", "\a", "\x00", "\x1f", "\x7f", "é", "\ufeff", "\u2028", `"`, "#", ","}
 	seq("comment-bodies", comment, c.Pick(5, 6)+delta, func(b string) string { return "#" + b + "\na" }, `comment bodies wrapped as #…LF a: characters that are no SourceCharacter (U+0000, U+0007, U+001F) end the comment and are then rejected, DEL, BOM, U+2028 and non-ASCII text belong to it, over `+strings.Join(quoteAll(comment), " "))
 
+	strch := []string{`"`, "a", "\t", "\ufffd", "\uffff", "\ufeff", "\u00a0", "\u2028", "\x7f", "\u0080", "\u07ff", "\u0800", "\ud7ff", "\ue000", "\U00010000", "\U0010ffff", `\`, "\n", "n", "u"}
+	seq("string-chars", strch, c.Pick(3, 4)+delta, func(b string) string { return `"` + b + `" a` }, `quoted-string bodies wrapped as "…" a over characters at the edges of the UTF-8 encoding lengths and of SourceCharacter (TAB, DEL, U+0080, U+07FF, U+0800, U+D7FF, U+E000, U+FFFD, U+FFFF, U+10000, U+10FFFF), a BOM, NBSP and U+2028 inside the string: `+strings.Join(quoteAll(strch), " "))
+
 	// block strings as sequences of lines (the dedent algorithm works line by line): every
 	// sequence of ≤ 4/5 lines over blank lines shorter than, equal to and longer than the indent
 	// of the text lines, text lines at several indents, tabs
